@@ -37,6 +37,14 @@ pub fn analyze_fresh(rel: &str, text: &str) -> Op {
     }
 }
 
+pub fn close(rel: &str) -> Op {
+    let r = rel.to_string();
+    Op {
+        desc: format!("didClose: cleanup_file_cache({})", rel),
+        f: Arc::new(move |db| db.cleanup_file_cache(&p(&r))),
+    }
+}
+
 #[derive(Clone)]
 pub struct Scenario {
     pub name: String,
